@@ -158,6 +158,23 @@ def translate(pat):
     return t
 
 
+def literal_of(pat):
+    """The text of a pattern made of literal characters only (optionally followed by '$' / '\\Z'), else None."""
+    try:
+        tree = list(sre_parse.parse(pat.pattern, pat.flags & ~re.UNICODE if isinstance(pat.pattern, bytes) else pat.flags))
+    except Exception:
+        return None
+    out = []
+    for i, (op, av) in enumerate(tree):
+        if op is sre_c.LITERAL:
+            out.append(chr(av))
+        elif op is sre_c.AT and i == len(tree) - 1 and av in (sre_c.AT_END, sre_c.AT_END_STRING):
+            continue
+        else:
+            return None
+    return ''.join(out)
+
+
 def language(pat):
     """z3 regex of the strings the pattern matches entirely (fullmatch)."""
     t = translate(pat)
@@ -170,9 +187,10 @@ class SymMatch(object):
     """A match object on a symbolic subject; only its span is available."""
     pytype = re.Match
 
-    def __init__(self, subject, end):
+    def __init__(self, subject, end, pat=None):
         self.subject = subject
         self.end_ = end
+        self.pat = pat
 
     def __bool__(self):
         return True
@@ -191,6 +209,8 @@ class SymMatch(object):
     cut = False
 
     def _groups(self):
+        if self.pat is not None and self.pat.groups == 0:
+            return
         if self.cut:
             # the subject matches the pattern: that case is the pattern_literal obligation's (C10 case split)
             raise S.PathAbort("text matching the pattern is covered by the pattern_literal obligation")
@@ -198,12 +218,18 @@ class SymMatch(object):
 
     def group(self, *a):
         self._groups()
+        if not a or a == (0,):
+            from .text import sym_getitem
+            raise Unsupported("group(0) of a symbolic match")
+        raise IndexError("no such group")
 
     def groupdict(self, *a):
         self._groups()
+        return {}
 
     def groups(self, *a):
         self._groups()
+        return ()
 
 
 def _subject(pat, s):
@@ -220,8 +246,12 @@ def m_fullmatch(interp, pat, s, *a):
         raise Unsupported("fullmatch with pos/endpos")
     from .text import FmtStr
     if isinstance(s, FmtStr):
-        from .tokmatch import m_match_tokens
-        return m_match_tokens(interp, pat, s, full=True)
+        from .text import Dec, fmt_to_sstr
+        if not any(isinstance(t, Dec) for t in s.tokens):
+            s = fmt_to_sstr(s)
+        else:
+            from .tokmatch import m_match_tokens
+            return m_match_tokens(interp, pat, s, full=True)
     s = _subject(pat, s)
     try:
         translate(pat)
@@ -230,7 +260,7 @@ def m_fullmatch(interp, pat, s, *a):
             return _fork_match(interp, pat, s, str(e))
         raise
     if interp.ctx.branch(z3.InRe(s.t, language(pat))):
-        m = SymMatch(s, SInt(z3.Length(s.t)))
+        m = SymMatch(s, SInt(z3.Length(s.t)), pat)
         m.cut = getattr(interp, 'symmatch_cut', False)
         return m
     return None
@@ -251,8 +281,12 @@ def m_match(interp, pat, s, *a):
         raise Unsupported("match with pos/endpos")
     from .text import FmtStr
     if isinstance(s, FmtStr):
-        from .tokmatch import m_match_tokens
-        return m_match_tokens(interp, pat, s, full=False)
+        from .text import Dec, fmt_to_sstr
+        if not any(isinstance(t, Dec) for t in s.tokens):
+            s = fmt_to_sstr(s)                     # literals and embedded strings only: one z3 string term
+        else:
+            from .tokmatch import m_match_tokens
+            return m_match_tokens(interp, pat, s, full=False)
     s = _subject(pat, s)
     try:
         t = translate(pat)
@@ -269,14 +303,17 @@ def m_match(interp, pat, s, *a):
                 e = ctx.int('match_end', declare=False)
                 ctx.assume(z3.And(z3.Or(e.t == n, z3.And(e.t == n - 1, z3.SuffixOf(z3.StringVal('\n'), s.t))),
                                   z3.InRe(z3.SubString(s.t, 0, e.t), t.re)))
-                return SymMatch(s, e)
-            return SymMatch(s, SInt(n))
+                return SymMatch(s, e, pat)
+            return SymMatch(s, SInt(n), pat)
         return None
     if ctx.branch(z3.InRe(s.t, z3.Concat(t.re, z3.Full(_RS)))):
+        lit = literal_of(pat)
+        if lit is not None:
+            return SymMatch(s, len(lit), pat)          # a literal pattern has exactly one admissible end
         ctx.note_overapprox("re.match: which admissible end the engine picks is not modelled")
         e = ctx.int('match_end', declare=False)
         ctx.assume(z3.And(e.t >= 0, e.t <= z3.Length(s.t), z3.InRe(z3.SubString(s.t, 0, e.t), t.re)))
-        m = SymMatch(s, e)
+        m = SymMatch(s, e, pat)
         m.cut = getattr(interp, 'symmatch_cut', False)
         return m
     return None
